@@ -61,6 +61,12 @@ theorem C27_noninterference (a b : Req × Bool × List Act) :
   have h2 := renderCached_ok (renderCached [] (respond ra ka sa)).2 (respond rb kb sb) h1.2
   simp [pairRun, history, h1.1, h2.1]
 
+/-- Backend path (ReadResponse → sendResponse): whenever the backend's body ends with an error (short of
+    its Content-Length, inside a chunk) the connection to the client is closed after the reply. -/
+theorem C27_backend_error_closes (rq : Req) (ka : Bool) (b : Backend)
+    (h1 : b.bodyRead rq.isHead = true) (h2 : b.delivered.2 = true) : (respondBackend rq ka b).2 = true := by
+  simp [respondBackend, h1, h2]
+
 /-! ### Layers of `C27_parses` (reference parser applied to the rendered bytes)
 
   Proved so far, each at full strength for its layer: line splitter, status line, Content-Length body,
@@ -171,6 +177,16 @@ example : judge false true [] false []
     = "FAIL:chunked-on-http10-status" := by decide
 example : judge false true [] false []
     (statusLine false 200 ++ crlf ++ strBytes "Content-Length: 0" ++ crlf ++ crlf) = "FAIL:status-version-wrong" := by decide
+
+/-! … but closing is all that happens (see `C27_backend_error_closes`): a chunked backend body cut off inside a chunk reaches the client as
+    a complete, Content-Length-delimited response (finishRequest computes the length of what arrived), so
+    the client cannot notice the truncation (known finding `backend-truncation-masked`). -/
+set_option maxRecDepth 16000 in
+theorem C27_witness_backend_truncation_masked :
+    judgeBackend false true ⟨200, .chunked [3, 4] false true, false, false, false⟩
+      (respondBackend get11 true ⟨200, .chunked [3, 4] false true, false, false, false⟩).2
+      (render (respondBackend get11 true ⟨200, .chunked [3, 4] false true, false, false, false⟩).1)
+    = "FAIL:backend-truncation-masked" := by decide
 
 /-! Non-vacuity: ordinary exchanges. -/
 example : NothingAfterHead (respond get11 true [.writeHeader 204]) := by decide
